@@ -16,9 +16,21 @@ TDEA_FORMS = ["k1", "k1k2", "k1k2k3", "s8", "s16", "s24"]
 TDEA_KEYLEN = {"k1": 8, "k1k2": 16, "k1k2k3": 24, "s8": 8, "s16": 16, "s24": 24}
 
 
-def make(c):
-    """crysp object for case c = {cipher, key (bytes), form, tweak?, kbits? (serpent Bits key size)}"""
+def make(c, shared=None):
+    """crysp object for case c = {cipher, key (bytes), form, tweak?, kbits? (serpent Bits key size)}.
+    With a dict `shared`, key/tweak vectors of the "bits" form are built once and the SAME Bits objects are handed to
+    every object made with that dict (they must come back unchanged: see unchanged())."""
     name, key, form = c["cipher"], c["key"], c.get("form", "bytes")
+    if shared is not None and form == "bits" and name == "serpent":
+        if "K" not in shared:
+            shared["K"] = Bits(int.from_bytes(key, "little") & ((1 << c["kbits"]) - 1), c["kbits"])
+            shared["snap"] = [(shared["K"].ival, shared["K"].size)]
+        return Serpent(shared["K"])
+    if shared is not None and form == "bits" and name.startswith("tf"):
+        if "K" not in shared:
+            shared["K"], shared["T"] = Bits(key, bitorder=1), Bits(c["tweak"], bitorder=1)
+            shared["snap"] = [(shared["K"].ival, shared["K"].size), (shared["T"].ival, shared["T"].size)]
+        return Threefish(shared["K"], shared["T"])
     if name.startswith("aes"):
         return AES(key)
     if name == "des":
@@ -40,6 +52,25 @@ def make(c):
             return Threefish(Bits(key, bitorder=1), Bits(c["tweak"], bitorder=1))
         return Threefish(key, c["tweak"])
     raise AssertionError(name)
+
+
+def unchanged(shared):
+    """the caller's key/tweak vectors still hold what the caller put in"""
+    if not shared or "K" not in shared:
+        return True
+    now = [(shared["K"].ival, shared["K"].size)] + ([(shared["T"].ival, shared["T"].size)] if "T" in shared else [])
+    return now == shared["snap"]
+
+
+def sibling(c):
+    """an equally shaped configuration with another key (and tweak)"""
+    k = bytes(255 - x for x in c["key"][::-1])
+    if c["cipher"] == "serpent" and c.get("form") == "bits":
+        k = (int.from_bytes(k, "little") & ((1 << c["kbits"]) - 1)).to_bytes(32, "little")
+    d = dict(c, key=k)
+    if "tweak" in c:
+        d["tweak"] = bytes(255 - x for x in c["tweak"][::-1])
+    return d
 
 
 def tdea_keys(c):
@@ -99,7 +130,7 @@ def config_strategy(names=CIPHERS):
         if name == "serpent":
             by = gen.blob_of(gen.pick((2, st.sampled_from([1, 16, 24, 31, 32])), (1, gen.uint(1, 32)))).map(
                 lambda k: {"cipher": name, "form": "bytes", "key": k})
-            bi = st.tuples(gen.pick((2, st.sampled_from([1, 7, 8, 9, 127, 128, 129, 255, 256])), (1, gen.uint(1, 256))), gen.blob(32)).map(
+            bi = st.tuples(gen.pick((2, st.sampled_from([1, 7, 8, 9, 127, 128, 129, 255, 256, 256, 256])), (1, gen.uint(1, 256))), gen.blob(32)).map(
                 lambda t: {"cipher": name, "form": "bits", "kbits": t[0],
                            "key": (int.from_bytes(t[1], "little") & ((1 << t[0]) - 1)).to_bytes(32, "little")})
             return gen.pick((2, by), (1, bi))
